@@ -5,7 +5,9 @@ import coqfmt as cf
 RULE = ("cases = exhaustive universe (every DNF formula with <=2 disjuncts of <=2 distinct literals over 2 binary units, "
         "singly [quick] and in every ordered pair [thorough], x every assignment) + random ragged DNF lists "
         "(<=6 rows, <=3 disjuncts, <=3 literals, <=4 units, <=3 candidates, three expression classes), each queried as "
-        "array, list, mapping (partial) and dtype=int; a case is non-trivial when the stored array contains padding or "
+        "array, list, mapping (partial) and dtype=int; half of the multi-row cases then replace one row IN PLACE by another row's "
+        "formula on the same container and repeat every query; plus WIDE universes (up to 260 units, up to 300 candidate values, "
+        "literals on both sides of 127|128 and 255|256); a case is non-trivial when the stored array contains padding or "
         "the expected mask contains both truth values; distinct = distinct JSON of the case")
 EXHAUSTIVE = {"quick": True, "thorough": True}
 SHARD = 400
@@ -58,9 +60,30 @@ def gen(rng, tier):
         x = [rng.randrange(k) for _ in range(n)]
         keys = [u for u in range(n) if rng.random() < 0.6]
         m = [[u, x[u] if rng.random() < 0.8 else rng.randrange(k)] for u in keys]
-        cases.append({"n": n, "k": k, "fs": fs, "kinds": kinds, "x": x, "m": m,
-                      "unit_names": rng.choice(["int", "int", "str", "tuple"]),
-                      "cand_names": rng.choice(["int", "int", "reversed", "falsy_last", "bool_rev", "str"])})
+        case = {"n": n, "k": k, "fs": fs, "kinds": kinds, "x": x, "m": m,
+                "unit_names": rng.choice(["int", "int", "str", "tuple"]),
+                "cand_names": rng.choice(["int", "int", "reversed", "falsy_last", "bool_rev", "str"])}
+        if rows >= 2 and rng.random() < 0.5:
+            # a second observation on the SAME container: after the queries, row i is replaced in place by the formula of row j
+            # (narrower, wider or equal) and every query is repeated -- rows of different sizes must still not influence each other
+            i = rng.randrange(rows)
+            case["edit"] = [i, rng.choice([j for j in range(rows) if j != i])]
+        cases.append(case)
+    # WIDE universes: many units / candidate values, the literals placed on both sides of the boundaries of the narrow integer
+    # types (127|128, 255|256): positions must not be confused whatever storage the container chooses
+    for _ in range({"quick": 40, "search": 150, "thorough": 400}[tier]):
+        n, upool = rng.choice([(3, [0, 1, 2]), (130, [0, 127, 128, 129]), (260, [127, 128, 255, 256])])
+        k, cpool = rng.choice([(2, [0, 1]), (130, [0, 127, 128, 129]), (300, [1, 128, 255, 256, 299])])
+        rows = rng.randint(1, 4)
+        fs = [[[(rng.choice(upool), rng.choice(cpool)) for _ in range(rng.randint(1, 3))] for _ in range(rng.choice([1, 1, 2, 3]))]
+              for _ in range(rows)]
+        x = [0] * n
+        for u in upool:
+            x[u] = rng.choice(cpool + [0])
+        m = [[u, x[u] if rng.random() < 0.8 else rng.choice(cpool)] for u in upool if rng.random() < 0.6]
+        cases.append({"n": n, "k": k, "fs": fs, "kinds": [rng.choice(["min", "conj", "full"]) for _ in range(rows)], "x": x, "m": m,
+                      "unit_names": rng.choice(["int", "str"]), "cand_names": "int" if k > 3 else rng.choice(["int", "reversed"]),
+                      "wide": True})
     return cases
 
 
@@ -112,6 +135,7 @@ def run_impl(c):
     qm = p.query(dict((un[u], cn[v]) for u, v in c["m"]))
     qi = p.query(np.array(x, dtype=int), dtype=int)
     assert np.issubdtype(qi.dtype, np.integer)
+    data0 = p.data.tolist()
     # malformed stream (outside the property's quantifier: recorded in the evidence, never a verdict): assignments of the wrong
     # length or dimension are rejected by the code the model's guard `length x = n` stands for
     malformed = {}
@@ -121,16 +145,36 @@ def run_impl(c):
             malformed[name] = "accepted"
         except Exception as e:  # noqa
             malformed[name] = type(e).__name__
-    return {"malformed": malformed, "data": p.data.tolist(), "q_arr": qa.tolist(), "q_list": np.asarray(ql).tolist(),
+    after = None
+    if c.get("edit"):
+        i, j = c["edit"]
+        p[i] = exprs[j]
+        a_qa = p.query(np.array(x, dtype=int))
+        a_ql = p.query(list(x))
+        a_qm = p.query(dict((un[u], cn[v]) for u, v in c["m"]))
+        a_qi = p.query(np.array(x, dtype=int), dtype=int)
+        after = {"data": p.data.tolist(), "q_arr": a_qa.tolist(), "q_list": np.asarray(a_ql).tolist(),
+                 "q_map": np.asarray(a_qm).tolist(), "q_int": a_qi.ravel().tolist()}
+    return {"after": after, "malformed": malformed, "data": data0, "q_arr": qa.tolist(), "q_list": np.asarray(ql).tolist(),
             "q_map": np.asarray(qm).tolist(), "q_int": qi.ravel().tolist()}
 
 
 # ----------------------------------------------------------------------------- Coq side
 def emit(c, o):
     data = cf.lst([cf.lst([cf.zpairs([tuple(cell) for cell in conj]) for conj in row]) for row in o["data"]])
-    return ("(mkCase %s %s %s %s %s %s %s %s %s)" % (
+    return ("(mkCase %s %s %s %s %s %s %s %s %s %s)" % (
         cf.nat(c["n"]), cf.dnfs(c["fs"]), cf.nats(c["x"]), cf.natpairs([tuple(p) for p in c["m"]]), data,
-        cf.bools(o["q_arr"]), cf.bools(o["q_list"]), cf.bools(o["q_map"]), cf.nats(o["q_int"])))
+        cf.bools(o["q_arr"]), cf.bools(o["q_list"]), cf.bools(o["q_map"]), cf.nats(o["q_int"]), cf.b(bool(c.get("edited")))))
+
+
+def expand(c, o):
+    """a case with an in-place edit is evaluated as two Coq cases: before, and after on the edited formula list"""
+    if isinstance(o, dict) and o.get("after") and c.get("edit"):
+        i, j = c["edit"]
+        fs2 = list(c["fs"])
+        fs2[i] = c["fs"][j]
+        return [(c, o), (dict(c, fs=fs2, edited=True), o["after"])]
+    return [(c, o)]
 
 
 def nontrivial(c, o):
@@ -148,7 +192,8 @@ def distribution(cases, outs):
                  any(cell[0] == -1 for row in o["data"] for conj in row for cell in conj))
     exc = Counter(o["exc"] for o in outs if isinstance(o, dict) and "exc" in o)
     return {"rows": dict(sorted(rows.items())), "widths_DxC": {"%dx%d" % k: v for k, v in sorted(widths.items())},
-            "cases_with_padding": padded, "exceptions": dict(exc),
+            "cases_with_padding": padded, "exceptions": dict(exc), "wide_universe_cases": sum(1 for c in cases if c.get("wide")),
+            "cases_with_in_place_edit_then_requery": sum(1 for c in cases if c.get("edit")),
             "malformed_assignments (wrong length / dimension; not a verdict)":
                 dict(Counter("%s:%s" % kv for o in outs if isinstance(o, dict) for kv in o.get("malformed", {}).items()))}
 
@@ -160,7 +205,16 @@ def shrink(c):
             d = dict(c)
             d["fs"] = fs[:i] + fs[i + 1:]
             d["kinds"] = c["kinds"][:i] + c["kinds"][i + 1:]
+            if "edit" in d:      # keep the in-place edit meaningful: re-index it, or drop it with the row it names
+                if i in d["edit"]:
+                    del d["edit"]
+                else:
+                    d["edit"] = [e - (1 if e > i else 0) for e in d["edit"]]
             yield d
+    if "edit" in c:
+        d = dict(c)
+        del d["edit"]
+        yield d
     for i, f in enumerate(fs):
         for j in range(len(f)):
             if len(f) > 1:
